@@ -310,7 +310,7 @@ def check_callable(item, acc):
 
 CLASS_STYLES = ["plain", "slots", "dataclass", "namedtuple", "no_init", "user_new", "init_args", "factory_new", "factory_new_init", "setstate", "abstract_members"]
 CHILDREN = [None, "plain_noinit", "plain_init_args", "dbc_noinit", "dbc_init_args", "dbc_new", "plain_new",
-            "plain_grandchild", "dbc_grandchild", "plain_mixin_init"]  # constructor inherited by the class that is instantiated
+            "plain_grandchild", "dbc_grandchild", "plain_mixin_init", "plain_dict_base", "plain_exception_base"]  # constructor inherited by the class that is instantiated
 
 
 def render_class(style, inv, child, dbc, contracts):
@@ -386,6 +386,11 @@ def render_class(style, inv, child, dbc, contracts):
             # Child defines the constructor, GrandChild (the class instantiated) inherits it
             w.append("    def __init__(self, z):\n        {}\n        self.z = z\nclass GrandChild(Child):\n    {}\n".format(
                 "super().__init__()" if style not in ("no_init",) else "self.v = 1", "__slots__ = ()" if style == "slots" else "pass"))
+        elif child.endswith("dict_base") or child.endswith("exception_base"):
+            # the child mixes the class with a built-in base whose __new__ must be used (object.__new__ is "not safe" for it)
+            if style != "no_init":
+                return None
+            w[-1] = "class Child(Root, {}):\n    pass\n".format("dict" if child.endswith("dict_base") else "Exception")
         elif child.endswith("mixin_init"):
             if style in ("namedtuple", "dataclass", "slots"):
                 return None
@@ -462,6 +467,19 @@ def class_script(ns, style, child):
         rec("GrandChild(3)", lambda: (ns["GrandChild"](3).z, ns["GrandChild"](3).v))
         rec("GrandChild(z=3)", lambda: ns["GrandChild"](z=3).z)
         rec("gc.pub", lambda: ns["GrandChild"](3).pub(1))
+    if child and (child.endswith("dict_base") or child.endswith("exception_base")):
+        Child = ns["Child"]
+        if child.endswith("dict_base"):
+            rec("Child(a=1)", lambda: (type(Child(a=1)).__name__, dict(Child(a=1)), Child(a=1).pub(2), Child(a=1).v))
+        else:
+            rec("Child('x')", lambda: (type(Child("x")).__name__, Child("x").args, Child("x").pub(2)))
+            def _raise():
+                try:
+                    raise Child("boom")
+                except Exception as e:
+                    return type(e).__name__, e.args
+            rec("raise Child", _raise)
+        return obs
     if child and child.endswith("mixin_init"):
         rec("Mixed(3)", lambda: (ns["Child"](3).z, ns["Child"](3).v))
         rec("mixed.pub", lambda: ns["Child"](3).pub(1))
